@@ -690,6 +690,28 @@ X_Purge(p) ==
          bad == XEnd([o EXCEPT !.dseq = <<>>], "err") IN
      StoreWrite(p, "delete", r, store[r].st # "none", [store EXCEPT ![r] = NoRec], nxt, bad, bad)
 
+(* ----- helm test: pkg/action/release_testing.go ----------------------------------------- *)
+
+\* Last, the test hooks of the last revision (execHook, event "test"), then the release is written back as read
+T_Last(p) ==
+  /\ pc[p] = "T_Last" /\ Budgets
+  /\ LET o == op[p] IN
+     StoreRead(p, "query", "history", Used # {},
+       IF Used = {} THEN Done(o, "err")
+       ELSE LET o1 == [o EXCEPT !.tgt = Last, !.tgtRec = store[Last], !.memSt = store[Last].st, !.hdefs = store[Last].hooks] IN
+            EnterHooks(o1, "test", Last, store[Last].hooks, "T_Update", "T_UpdateErr"))
+
+T_Update(p) ==
+  /\ pc[p] = "T_Update" /\ Budgets
+  /\ LET o == op[p] IN
+     StoreWrite(p, "update", o.tgt, store[o.tgt].st # "none", WriteRec(store, o.tgt, MemRec(o, o.tgt), o.memSt),
+                Done(o, "ok"), Done(o, "err"), Done(o, "err"))
+
+T_UpdateErr(p) ==
+  /\ pc[p] = "T_UpdateErr" /\ Budgets
+  /\ LET o == op[p]  t == Done(o, "err") IN
+     StoreWrite(p, "update", o.tgt, store[o.tgt].st # "none", WriteRec(store, o.tgt, MemRec(o, o.tgt), o.memSt), t, t, t)
+
 (* ----- upgrade ------------------------------------------------------------------------ *)
 
 \* helm upgrade --install (pkg/cmd/upgrade.go): History first; no release, or a last revision that is
@@ -901,6 +923,7 @@ BeginT(m) ==
     [] m.kind = "upgrade"   -> IF m.install THEN [pc |-> "UI_Hist", op |-> o] ELSE [pc |-> "U_Last", op |-> o]
     [] m.kind = "rollback"  -> [pc |-> "R_Last", op |-> o]
     [] m.kind = "uninstall" -> [pc |-> "X_Hist", op |-> o]
+    [] m.kind = "test"      -> [pc |-> "T_Last", op |-> o]
 
 BeginWith(p, m) ==
   /\ pc[p] = "idle" /\ nops[p] < MaxOps
@@ -967,6 +990,7 @@ CallStep(p) ==
   \/ I_Name(p) \/ I_CRD(p) \/ I_CRDWait(p) \/ I_CreateNS(p) \/ I_Own(p) \/ I_ReplHist(p) \/ I_ReplUpdate(p) \/ I_Create(p) \/ I_CreateRes(p)
   \/ I_Wait(p) \/ I_Deployed(p) \/ I_FailRec(p)
   \/ X_Hist(p) \/ X_Mark(p) \/ X_Del(p) \/ X_RecUn(p) \/ X_Purge(p)
+  \/ T_Last(p) \/ T_Update(p) \/ T_UpdateErr(p)
   \/ UI_Hist(p) \/ U_Last(p) \/ U_Deployed(p) \/ U_Own(p) \/ U_Create(p) \/ U_ReRecord(p) \/ U_Wait(p)
   \/ U_Supersede(p) \/ U_RecDeployed(p) \/ U_FailRec(p) \/ C_Del(p) \/ A_Hist(p)
   \/ R_Last(p) \/ R_Hist(p) \/ R_GetTgt(p) \/ R_Create(p) \/ R_FailCur(p) \/ R_FailNew(p) \/ R_Wait(p)
